@@ -138,7 +138,7 @@ class Report:
         for (name, ok, key, what, case, own) in results:
             if not isinstance(own, bool):
                 prop = own
-                own = prop == self.pid or prop in self.owns
+                own = prop == self.pid or prop in self.owns or prop in os.environ.get('VERIF_DEBUG_ALSO_OWN', '').split(',')
                 if not own:
                     name = prop + '.' + name
             self.clause(name, ok, key=key, what=what, case=case, own=own)
